@@ -396,28 +396,28 @@ end
 
 /-! ## no user is listed twice in a room -/
 
-def Inv (s : State) : Prop := ∀ p ∈ s.rooms, p.2.users.Nodup
+def UsersNodup (s : State) : Prop := ∀ p ∈ s.rooms, p.2.users.Nodup
 
-theorem inv_init : Inv {} := by intro p hp; simp at hp
+theorem inv_init : UsersNodup {} := by intro p hp; simp at hp
 
-theorem nodup_getRoom {s : State} (hs : Inv s) (r : Nat) (p : Bool) : (s.getRoom r p).users.Nodup := by
+theorem nodup_getRoom {s : State} (hs : UsersNodup s) (r : Nat) (p : Bool) : (s.getRoom r p).users.Nodup := by
   unfold State.getRoom
   cases h : AL.find r s.rooms with
   | none => simp [Room.new]
   | some x => exact hs _ (AL.mem_of_find h)
 
-theorem inv_withRoom {s : State} (hs : Inv s) (r : Nat) (p : Bool) (f : Room → Room)
-    (hf : ∀ x, x.users.Nodup → (f x).users.Nodup) : Inv (s.withRoom r p f) := by
+theorem inv_withRoom {s : State} (hs : UsersNodup s) (r : Nat) (p : Bool) (f : Room → Room)
+    (hf : ∀ x, x.users.Nodup → (f x).users.Nodup) : UsersNodup (s.withRoom r p f) := by
   intro q hq
   rw [withRoom_eq] at hq
   rcases AL.mem_set hq with h | h
   · subst h; exact hf _ (nodup_getRoom hs r p)
   · exact hs _ h
 
-theorem inv_withUser {s : State} (hs : Inv s) (u : Nat) (f : User → User) : Inv (s.withUser u f) := hs
-theorem inv_touchUser {s : State} (hs : Inv s) (u : Nat) : Inv (s.touchUser u) := hs
+theorem inv_withUser {s : State} (hs : UsersNodup s) (u : Nat) (f : User → User) : UsersNodup (s.withUser u f) := hs
+theorem inv_touchUser {s : State} (hs : UsersNodup s) (u : Nat) : UsersNodup (s.touchUser u) := hs
 
-theorem inv_of_rooms {s t : State} (hs : Inv s) (h : t.rooms = s.rooms) : Inv t := by
+theorem inv_of_rooms {s t : State} (hs : UsersNodup s) (h : t.rooms = s.rooms) : UsersNodup t := by
   intro p hp; rw [h] at hp; exact hs p hp
 
 theorem nodup_addUser (x : Room) (u : Nat) (h : x.users.Nodup) : (x.addUser u).users.Nodup := by
@@ -458,7 +458,7 @@ theorem hv_userJoined (r u st : Nat) (k : Stats) (a b : Nat) (h : (Msg.userJoine
   simp only [handle, Spec.apply, h, Bool.not_true, Bool.false_eq_true, if_false]
   rw [view_room1 _ r false _ (fun x => { x with users := ins u x.users }) (fun x => roomView_addUser x u), view_withUser]
 
-theorem hv_userLeft (hs : Inv s) (r u : Nat) :
+theorem hv_userLeft (hs : UsersNodup s) (r u : Nat) :
     view (handle env s (.userLeft r u)).st = Spec.apply env (view s) (.userLeft r u) := by
   simp only [handle, Spec.apply]
   rw [view_withRoom_touch _ r false _ (fun x => { x with users := del u x.users }), view_touchUser]
@@ -534,7 +534,7 @@ theorem view_joinLoop (r : Nat) (es : List Entry) (s : State) (hk : (AL.find r s
           simp [hu']
     · rfl
 
-theorem inv_joinLoop (r : Nat) (es : List Entry) (s : State) (hs : Inv s) : Inv (es.foldl (joinStep r) s) := by
+theorem inv_joinLoop (r : Nat) (es : List Entry) (s : State) (hs : UsersNodup s) : UsersNodup (es.foldl (joinStep r) s) := by
   induction es generalizing s with
   | nil => exact hs
   | cons e es ih =>
@@ -569,10 +569,10 @@ theorem hv_joinRoom (env : Env) (s : State) (r : Nat) (es : List Entry) (o : Opt
   · room_side
   · room_side
 
-theorem inv_joinRoom (env : Env) (s : State) (hs : Inv s) (r : Nat) (es : List Entry) (o : Option Nat) (ops : List Nat) :
-    Inv (handle env s (.joinRoom r es o ops)).st := by
+theorem inv_joinRoom (env : Env) (s : State) (hs : UsersNodup s) (r : Nat) (es : List Entry) (o : Option Nat) (ops : List Nat) :
+    UsersNodup (handle env s (.joinRoom r es o ops)).st := by
   simp only [handle]
-  have h1 : Inv (List.foldl (joinStep r)
+  have h1 : UsersNodup (List.foldl (joinStep r)
       (s.withRoom r false fun x => { x with joined := true, priv := o.isSome, users := [] })
       (es.takeWhile fun e => validStatus e.status)) :=
     inv_joinLoop _ _ _ (inv_withRoom hs _ _ _ (fun _ _ => List.nodup_nil))
@@ -580,5 +580,153 @@ theorem inv_joinRoom (env : Env) (s : State) (hs : Inv s) (r : Nat) (es : List E
   · exact inv_touchUser h1 _
   · exact inv_withRoom h1 _ _ _ (fun _ hx => hx)
 
+
+/-! ## the passes of `_on_room_list` -/
+
+theorem rest_withRoomFold (l : List Nat) (p : Bool) (f : Room → Room) (s : State) :
+    (l.foldl (fun s r => s.withRoom r p f) s).users = s.users ∧
+    (l.foldl (fun s r => s.withRoom r p f) s).privSet = s.privSet ∧
+    (l.foldl (fun s r => s.withRoom r p f) s).timeLeft = s.timeLeft := by
+  induction l generalizing s with
+  | nil => exact ⟨rfl, rfl, rfl⟩
+  | cons a t ih => simp only [List.foldl]; exact ih _
+
+theorem find_withRoomFold (l : List Nat) (p : Bool) (f : Room → Room) (hf : ∀ x, f (f x) = f x) (s : State) (r : Nat) :
+    AL.find r (l.foldl (fun s r' => s.withRoom r' p f) s).rooms =
+      if l.contains r then some (f ((AL.find r s.rooms).getD (Room.new p))) else AL.find r s.rooms := by
+  induction l generalizing s with
+  | nil => simp
+  | cons a t ih =>
+    simp only [List.foldl]
+    rw [ih]
+    simp only [withRoom_eq, AL.find_set, State.getRoom, List.contains_cons]
+    by_cases h : r = a
+    · subst h
+      cases t.contains r <;> simp [hf]
+    · have h' : (r == a) = false := by simp [h]
+      simp [h, h']
+
+theorem inv_withRoomFold (l : List Nat) (p : Bool) (f : Room → Room) (hf : ∀ x, x.users.Nodup → (f x).users.Nodup)
+    (s : State) (hs : UsersNodup s) : UsersNodup (l.foldl (fun s r' => s.withRoom r' p f) s) := by
+  induction l generalizing s with
+  | nil => exact hs
+  | cons a t ih => exact ih _ (inv_withRoom hs a p f hf)
+
+theorem inv_roomList (env : Env) (s : State) (hs : UsersNodup s) (pub owned priv oper : List Nat) :
+    UsersNodup (roomList env s pub owned priv oper) := by
+  unfold roomList
+  intro q hq
+  simp only [List.mem_map, List.mem_filter] at hq
+  obtain ⟨q0, ⟨hq0, _⟩, rfl⟩ := hq
+  have h1 := inv_withRoomFold pub false id (fun _ h => h) s hs
+  have h2 := inv_withRoomFold owned true (fun x => { x with owner := some env.me }) (fun _ h => h) _ h1
+  have h3 := inv_withRoomFold priv true (fun x => { x with members := sadd env.me x.members }) (fun _ h => h) _ h2
+  have h4 := inv_withRoomFold oper true (fun x => { x with operators := sadd env.me x.operators }) (fun _ h => h) _ h3
+  exact h4 q0 hq0
+
+theorem view_roomList (env : Env) (s : State) (pub owned priv oper : List Nat) :
+    view (roomList env s pub owned priv oper) = Spec.apply env (view s) (.roomList pub owned priv oper) := by
+  apply state_ext
+  · funext r
+    simp only [view, roomList, Spec.apply]
+    rw [AL.find_map, AL.find_filter (fun k => pub.contains k || priv.contains k || owned.contains k)]
+    rw [find_withRoomFold oper true (fun x => { x with operators := sadd env.me x.operators }) (fun x => by simp [sadd_sadd]),
+      find_withRoomFold priv true (fun x => { x with members := sadd env.me x.members }) (fun x => by simp [sadd_sadd]),
+      find_withRoomFold owned true (fun x => { x with owner := some env.me }) (fun x => rfl),
+      find_withRoomFold pub false id (fun x => rfl)]
+    obtain ⟨o, h0⟩ : ∃ o, AL.find r s.rooms = o := ⟨_, rfl⟩
+    simp only [h0]
+    cases hp : pub.contains r <;> cases ho : owned.contains r <;> cases hm : priv.contains r <;>
+      cases hx : oper.contains r <;> cases o <;>
+      simp [Room.new, Spec.Room.new, roomView, ins, del, AL.find, funext_iff] <;> (try grind)
+  · funext u
+    simp only [view, State.getUser, State.newUser, roomList, Spec.apply]
+    simp only [rest_withRoomFold]
+  · simp only [view, roomList, Spec.apply]
+    simp only [rest_withRoomFold]
+
+
+/-! ## every handler commutes with the view; every handler keeps the invariant -/
+
+theorem handle_view (env : Env) (s : State) (hs : UsersNodup s) (m : Msg) (hm : m.WF = true) :
+    view (handle env s m).st = Spec.apply env (view s) m := by
+  cases m with
+  | roomChat r u t => exact hv_roomChat env s r u t
+  | publicChat r u t => exact hv_publicChat env s r u t
+  | userJoined r u st k a b => exact hv_userJoined env s r u st k a b hm
+  | userLeft r u => exact hv_userLeft env s hs r u
+  | joinRoom r es o ops => exact hv_joinRoom env s r es o ops hm
+  | leaveRoom r => exact hv_leaveRoom env s r
+  | tickers r ts => exact hv_tickers env s r ts
+  | tickerAdded r u t => exact hv_tickerAdded env s r u t
+  | tickerRemoved r u => exact hv_tickerRemoved env s r u
+  | toggleInvites e => rfl
+  | grantMembership r u => exact hv_grantMembership env s r u
+  | membershipGranted r => exact hv_membershipGranted env s r
+  | revokeMembership r u => exact hv_revokeMembership env s r u
+  | membershipRevoked r => exact hv_membershipRevoked env s r
+  | members r us => exact hv_members env s r us
+  | operators r us => exact hv_operators env s r us
+  | operatorGranted r => exact hv_operatorGranted env s r
+  | operatorRevoked r => exact hv_operatorRevoked env s r
+  | grantOperator r u => exact hv_grantOperator env s r u
+  | revokeOperator r u => exact hv_revokeOperator env s r u
+  | roomList pub owned priv oper =>
+    simp only [handle]
+    rw [view_roomList, view_touchUser]
+  | admin t => rfl
+  | kicked => rfl
+  | privateChat a b u t d => exact hv_privateChat env s a b u t d
+  | checkPrivileges t => rfl
+  | privilegedUsers us => exact hv_privilegedUsers env s us
+  | addPrivileged u => exact hv_addPrivileged env s u
+  | addUser u ex st k c => exact hv_addUser env s u ex st k c hm
+  | userStatus u st pv => exact hv_userStatus env s u st pv hm
+  | userStats u k => exact hv_userStats env s u k
+  | peerInfo c d pic a b f pm => exact hv_peerInfo env s c d pic a b f pm hm
+  | peerSearch u f a b => exact hv_peerSearch env s u f a b
+
+theorem inv_withRoom' {s : State} (r : Nat) (p : Bool) (f : Room → Room)
+    (hf : ∀ x, x.users.Nodup → (f x).users.Nodup) (hs : UsersNodup s) : UsersNodup (s.withRoom r p f) := inv_withRoom hs r p f hf
+
+theorem inv_touchFold {s : State} (us : List Nat) (hs : UsersNodup s) : UsersNodup (us.foldl (fun s u => s.touchUser u) s) :=
+  inv_of_rooms hs (rooms_touchFold _ _)
+theorem inv_touchFold' {s : State} (ts : List (Nat × Nat)) (hs : UsersNodup s) : UsersNodup (ts.foldl (fun s p => s.touchUser p.1) s) :=
+  inv_of_rooms hs (rooms_touchFold' _ _)
+
+theorem inv_room1 {s : State} {r : Nat} {p : Bool} {f : Room → Room} (hs : UsersNodup s)
+    (hf : ∀ x, x.users.Nodup → (f x).users.Nodup) : UsersNodup (s.withRoom r p f) := inv_withRoom hs r p f hf
+theorem inv_room3 {s : State} {r u : Nat} {p : Bool} {f : Room → Room} (hs : UsersNodup s)
+    (hf : ∀ x, x.users.Nodup → (f x).users.Nodup) : UsersNodup (((s.withRoom r p id).touchUser u).withRoom r p f) :=
+  inv_withRoom (inv_withRoom hs r p id (fun _ h => h)) r p f hf
+
+macro "inv_side" : tactic =>
+  `(tactic| first
+    | exact fun _ h => h
+    | exact fun _ h => nodup_addUser _ _ h
+    | exact fun _ h => nodup_removeUser _ _ h
+    | exact fun _ _ => List.nodup_nil)
+
+theorem inv_handle (env : Env) (s : State) (hs : UsersNodup s) (m : Msg) : UsersNodup (handle env s m).st := by
+  cases m with
+  | joinRoom r es o ops => exact inv_joinRoom env s hs r es o ops
+  | roomList pub owned priv oper => exact inv_roomList env _ (inv_touchUser hs _) _ _ _ _
+  | privilegedUsers us => exact inv_of_rooms (t := (handle env s (.privilegedUsers us)).st) hs (rooms_touchFold _ _)
+  | _ =>
+    simp only [handle]
+    (repeat' split) <;> first
+      | exact hs
+      | exact inv_room1 hs (by inv_side)
+      | exact inv_room3 hs (by inv_side)
+      | exact inv_touchFold _ (inv_room1 hs (by inv_side))
+      | exact inv_room1 (inv_touchFold' _ hs) (by inv_side)
+
+
+theorem inv_run (env : Env) (msgs : List Msg) : UsersNodup (run env msgs) := by
+  unfold run
+  suffices h : ∀ s, UsersNodup s → UsersNodup (msgs.foldl (fun s m => (handle env s m).st) s) from h {} inv_init
+  induction msgs with
+  | nil => intro s hs; exact hs
+  | cons a t ih => intro s hs; exact ih _ (inv_handle env s hs a)
 
 end AioslskVerif.Rooms
